@@ -309,8 +309,19 @@ fn chainmul(rng: &mut Rng, iters: u64, only: Option<u64>) {
     }
 }
 
+/// F10: M128::inv_2adic overflows `x += 1 << tz` when n^-1 mod 2^128 is below 2^63 (carry chain through every bit)
+fn f10() {
+    // n = 3^-1 mod 2^128 = (2^129 + 1) / 3 (odd, 128 bits); any use of the 128-bit curve arithmetic starts with inv_2adic(n)
+    let n: u128 = 226854911280625642308916404954512140971;
+    let r = catch_unwind(|| yamaquasi::ecm128::Curve::from_fractional_point(n, 2, 1, 3, 1).gen().clone());
+    if r.is_err() {
+        fail("f10", format!("ecm128::Curve::from_fractional_point({n}, 2, 1, 3, 1): panic (M128::inv_2adic: attempt to add with overflow)"));
+    }
+}
+
 pub fn run(case: &str, rng: &mut Rng, iters: u64) -> bool {
     match case {
+        "f10" => f10(),
         "chainmul" => chainmul(rng, iters, None),
         // known finding F2b: a 33-opcode chain
         "f2b" => chainmul(rng, iters, Some(0xF111111111111111)),
